@@ -106,13 +106,13 @@ func mkIDs(foreign bool) []oid.ID {
 			var id oid.ID
 			id[0] = first
 			id[31] = last
-			if foreign {
-				id[15] = 0x77
-			}
 			if first == 0xFF {
 				for i := 1; i < 31; i++ {
 					id[i] = 0xFF
 				}
+			}
+			if foreign {
+				id[15] = 0x77
 			}
 			if !id.IsZero() {
 				res = append(res, id)
@@ -306,6 +306,9 @@ func genCorpus(nObj int) *corpus {
 		s.Exists = err == nil && ex
 		if os.Getenv("VERIF_DEBUG") != "" && s.Exists != s.Avail {
 			fmt.Fprintln(os.Stderr, "avail mismatch", s.ID, s.Avail, ex, err)
+			for _, a := range s.Attrs {
+				fmt.Fprintf(os.Stderr, "    %s = %q\n", a.K, a.V)
+			}
 		}
 	}
 	return c
